@@ -274,6 +274,7 @@ class Ctx:
         self.exhaustive_dims = []
         self.assumptions = []
         self.relational = collections.Counter()
+        self.replayable = []          # (line, proj, model answer) of agreeing cases, for the shared-object session
         self.extra = {}
 
     def sub(self, name):
@@ -310,6 +311,8 @@ class Ctx:
                 self.distinct.add(hashlib.sha1(c.line.encode()).digest()[:10])
             if len(self.samples) < 6 and self.rng.random() < 0.02 or (len(self.samples) < 2):
                 self.samples.append({"op": c.line[:300], "model": w[:200], "pyemv": g[:200]})
+            if pg == pw and (len(self.replayable) < 1500 or (self.evaluations % 17 == 0 and len(self.replayable) < 6000)):
+                self.replayable.append((c.line, c.proj, w))
             if pg != pw:
                 if c.proj == "c17" and tag_only_ok(c, g, w):
                     self.notes.append(f"tag rendering differs within the stated relation: {c.line[:80]}")
